@@ -143,7 +143,9 @@ func (s *c03Sys) Key() string {
 	it.Close()
 	// pending orphans of the working tree (private map, read by reflection)
 	sb.WriteString(dump.Dump(s.tree, dump.Opts{
-		Follow:    func(t reflect.Type) bool { return t.String() == "*iavl.MutableTree" || t.String() == "iavl.MutableTree" },
+		Follow: func(t reflect.Type) bool {
+			return t.String() == "*iavl.MutableTree" || t.String() == "iavl.MutableTree"
+		},
 		SkipField: func(t reflect.Type, f string) bool { return f != "orphans" },
 	}))
 	h := sha256.Sum256([]byte(sb.String()))
